@@ -9,7 +9,7 @@ IF = [20, 21, 22]
 NAMES = ["", "", "", "n1", "n2"]
 GROUPS = ["g", "h"]
 # legal names / group names whose *content* matters to whoever formats, quotes, compares or splits them
-ODD = ['q"x', 'b\\s', 'sp ace', '\u00fc', 'N1', 'x:y', "it's", 'tab\there']
+ODD = ['a<b', 'x>y', 'p&q', 'q"x', 'b\\s', 'sp ace', '\u00fc', 'N1', 'x:y', "it's", 'tab\there']
 
 DEFAULT_W = dict(
     malformed=0.12,      # probability that a function / option is drawn from the malformed stream
@@ -954,7 +954,7 @@ class Gen:
             self.invokers.append((inv, sc))
             self.ops.append({"op": "invoke", "scope": sc, "fn": inv, "info": False})
             return
-        t = r.choice([82, 83, 84, 71])
+        t = r.choice([82, 83, 84, 85, 85, 71])
         if c == 1:
             # asked for, provided nowhere
             ins = r.choice([[u(t)], [self.st([self.in_field(), self.field("A", u(t))])],
